@@ -42,6 +42,12 @@ def jobs(tier, seed):
             out.append({'name': 'mean-passes%d-%s' % (passes, ex), 'kind': 'mean', 'shape': [2, 3] if big else [2, 2], 'passes': passes, 'excludes': ex})
     for ks, shp in (([3, 3], [4, 4]), ([1, 3], [3, 4]), ([3, 1], [4, 3])):
         out.append({'name': 'convolution-%dx%dkernel' % (ks[0], ks[1]), 'kind': 'conv', 'shape': shp, 'kshape': ks})
+    # integer rasters
+    out.append({'name': 'apply-posweighted-3x3kernel-int32', 'kind': 'apply', 'stat': 'pos_weighted_sum', 'shape': [3, 3], 'kshape': [3, 3], 'dtype': 'int32'})
+    out.append({'name': 'apply-max-3x3kernel-uint8', 'kind': 'apply', 'stat': 'max', 'shape': [2, 3], 'kshape': [3, 3], 'dtype': 'uint8'})
+    out.append({'name': 'focal_stats-stack-int32', 'kind': 'focal_stats', 'shape': [2, 2], 'dtype': 'int32'})
+    out.append({'name': 'mean-passes1-default-int32', 'kind': 'mean', 'shape': [2, 3], 'passes': 1, 'excludes': 'default', 'dtype': 'int32'})
+    out.append({'name': 'convolution-3x3kernel-int32', 'kind': 'conv', 'shape': [3, 4], 'kshape': [3, 3], 'dtype': 'int32'})
     out.append({'name': 'hotspots-classification-of-z', 'kind': 'hotspots-z', 'shape': [2, 2]})
     out.append({'name': 'hotspots-3x1-3x1kernel', 'kind': 'hotspots', 'shape': [3, 1], 'kshape': [3, 1], 'full': True})
     out.append({'name': 'hotspots-1x4-1x3kernel-sign', 'kind': 'hotspots', 'shape': [1, 4], 'kshape': [1, 3], 'full': False})
@@ -145,8 +151,10 @@ def body(ctx, job):
     h, w = job['shape']
     if kind == 'apply':
         return body_apply(ctx, job)
+    dt = job.get('dtype', 'float64')
+    ikw = {'lo': 0 if dt[0] == 'u' else -4, 'hi': 4} if dt[0] in 'iu' else {}
     if kind == 'focal_stats':
-        d = ctx.array('d', (h, w), 'float64', nan=False)
+        d = ctx.array('d', (h, w), dt, nan=False, **ikw)
         agg = raster(d, name='a', attrs={'res': 1})
         kernel = symnp.asarray([[0, 1, 0], [1, 1, 1], [0, 1, 0]], 'float64')
         order = ['sum', 'min', 'mean', 'var', 'max', 'range', 'std']
@@ -163,7 +171,7 @@ def body(ctx, job):
         return body_mean(ctx, job)
     if kind == 'conv':
         kr, kc = job['kshape']
-        d = ctx.array('d', (h, w), 'float64', nan=True)
+        d = ctx.array('d', (h, w), dt, nan=True, **ikw)
         k = ctx.array('k', (kr, kc), 'float64', nan=False)
         agg = raster(d, name='a', attrs={'res': 1})
         res = ctx.call('convolution:convolution_2d', agg, k)
@@ -202,7 +210,8 @@ def body_apply(ctx, job):
     h, w = job['shape']
     kr, kc = job['kshape']
     stat = job['stat']
-    d = ctx.array('d', (h, w), 'float64', nan=stat not in ('var', 'std'))
+    dt = job.get('dtype', 'float64')
+    d = ctx.array('d', (h, w), dt, nan=stat not in ('var', 'std'), **({'lo': 0 if dt[0] == 'u' else -4, 'hi': 4} if dt[0] in 'iu' else {}))
     if stat in ('var', 'std'):
         # variance claims are polynomial identities: concrete footprint and NaN-free data keep the cell count concrete
         k = symnp.asarray([[0, 1, 0], [1, 1, 1], [0, 1, 1]], 'float64')
@@ -229,7 +238,8 @@ def body_apply(ctx, job):
 def body_mean(ctx, job):
     h, w = job['shape']
     passes = job['passes']
-    d = ctx.array('d', (h, w), 'float64', nan=True)
+    dt = job.get('dtype', 'float64')
+    d = ctx.array('d', (h, w), dt, nan=True, **({'lo': -4, 'hi': 4} if dt[0] in 'iu' else {}))
     agg = raster(d, name='a', attrs={'res': 1})
     mode = job['excludes']
     if mode == 'default':
